@@ -177,6 +177,7 @@ def run_case(case):
         fn = os.path.join(files.VERIF, ARC)
         na_file = None
     else:
+        c02._trim_cache()
         fn, tr, _full = c02._file(fmt, case["nf"], case["na"], case["cell"], case["seed"])
     atoms = case.get("atoms")
     with warnings.catch_warnings():
